@@ -178,6 +178,33 @@ func cmdAPI(in, out string) error {
 			case <-time.After(10 * time.Second):
 				res.Err = "timeout"
 			}
+		case "augment":
+			// the pgo augmenter alone (Src = one side of a patch), under recover and a watchdog
+			type augRes struct {
+				kinds []string
+				err   string
+			}
+			ch := make(chan augRes, 1)
+			go func() {
+				defer func() {
+					if x := recover(); x != nil {
+						ch <- augRes{err: fmt.Sprintf("panic:%v", x)}
+					}
+				}()
+				_, kinds, err := patch.VerifAugment([]byte(r.Src))
+				if err != nil {
+					ch <- augRes{kinds: kinds, err: "error:" + err.Error()}
+				} else {
+					ch <- augRes{kinds: kinds}
+				}
+			}()
+			select {
+			case a := <-ch:
+				b, _ := json.Marshal(a.kinds)
+				res.Out, res.Err = string(b), a.err
+			case <-time.After(5 * time.Second):
+				res.Err = "timeout"
+			}
 		case "split":
 			chs, err := patch.VerifSplit(r.Name, []byte(r.Patch))
 			if err != nil {
